@@ -28,6 +28,7 @@ def localAct : Act → Bool
   | .peerEof => false
   | .peerClose _ => false
   | .requestFailed _ => false
+  | .emitFail _ => false      -- the two-sided model assumes transports that do not drop messages
   | _ => true
 
 inductive PAct where
